@@ -6,7 +6,7 @@ CHECKS = {
  # id: (engine, category, technique, level text, level note, design ref)
  'C02': ('icmc', 'model_checking',
          'explicit-state BFS over IBTP block histories on the real executor in lock-step with a reference model',
-         'All block histories up to depth 4 (thorough 5) over 13-25 block kinds (requests/receipts with next/duplicate/future/zero/huge/unknown index on 4 ordered pairs incl. a service sending to itself, mixed packing, unrelated txs, direct calls of every public interchain-contract method by an outsider), audit off and on; after every block every receipt verdict, both-side counters, index records and delivery sets are compared with the model.',
+         'All block histories up to depth 4 (thorough 5) over 13-25 block kinds (requests/receipts with next/duplicate/future/zero/huge/unknown index on 4 ordered pairs incl. a service sending to itself, mixed packing, unrelated txs, direct calls of every public interchain-contract method by an outsider), audit off and on; after every block every receipt verdict, both-side counters, index records and delivery sets are compared with the model, and the real InterchainRouter (GetInterchainTxWrappers over the replica's ledger) must hand each chain exactly its delivery set.',
          'memkv for goleveldb; all proofs valid (C03 covers proofs); 3 service pairs', '5 C02'),
  'C04': ('icmc', 'model_checking',
          'explicit-state BFS over request/receipt/timeout block histories on the real executor against the protocol FSM',
@@ -14,7 +14,7 @@ CHECKS = {
          'memkv for goleveldb; inter-BitXHub notices not in the alphabet yet', '5 C04'),
  'C06': ('icmc', 'model_checking',
          'explicit-state BFS over block histories with timeouts on the real executor against an expiry model',
-         'All block histories up to depth 5 (thorough 7) of requests with T in {0,1,2,(3,huge,-1)}, receipts before/in/after the expiry block, shared expiry heights, begin-failed requests, reopen between H and H+T; per block the timeout notifications and all statuses are compared with the model; plus one-to-many groups (2 and 3 children, a later child refused at begin, receipts) with T=2/3: a group is listed as timed out exactly in block H+T of its first accepted child if it neither completed nor failed before.',
+         'All block histories up to depth 5 (thorough 7) of requests with T in {0,1,2,(3,huge,-1)}, receipts before/in/after the expiry block, shared expiry heights, begin-failed requests, reopen between H and H+T; per block the timeout notifications and all statuses are compared with the model; plus one-to-many groups (2 and 3 children, a later child refused at begin, receipts) with T=2/3: a group is listed as timed out exactly in block H+T of its first accepted child if it neither completed nor failed before; two groups from two source services with identical destination->index maps on one world stay independent.',
          'memkv for goleveldb; the block carrying a contradicting late receipt of a group is not judged (implementation-defined, see C05)', '5 C06'),
  'C09': ('chainmc', 'model_checking',
          'explicit-state BFS over block/rollback/re-execute/reopen histories on the real executor+ledger with full index re-derivation',
@@ -22,8 +22,8 @@ CHECKS = {
          'memkv for goleveldb, real blockfile on tmpfs; identical transaction objects in two blocks are outside consensus guarantees and not explored', '5 C09'),
  'C14': ('chainmc', 'model_checking',
          'explicit-state BFS over transfer/fee block histories on the real executor against an arithmetic reference model',
-         'All block histories up to depth 2 (thorough 3) over 23 block kinds: transfers with amount in {0,1,balance,balance+1,balance-fee,10^40,non-numeric,negative} between rich/poor/self/admin accounts whose balances sit at fee-1, fee, fee+1, fee+9, succeeding and failing contract calls, multi-tx blocks; per block the sum and sign of all persisted balances, receipt verdicts and every account balance are compared with the reference.',
-         'memkv for goleveldb; gas price 50000 and 4 admins; admin-grant path not in the alphabet', '5 C14'),
+         'All block histories up to depth 2 (thorough 3) over 23 block kinds: transfers with amount in {0,1,balance,balance+1,balance-fee,10^40,non-numeric,negative} between rich/poor/self/admin accounts whose balances sit at fee-1, fee, fee+1, fee+9, succeeding and failing contract calls, multi-tx blocks; per block the sum and sign of all persisted balances, receipt verdicts and every account balance are compared with the reference. Grant part: BFS (depth 7, thorough 9, abstraction on governance statuses) over register governance / audit admin, freeze, activate, logout, logout of the bound audit node, bind to another node, each approved or rejected: the total grows only in the step approving a registration, by exactly the configured grant.',
+         'memkv for goleveldb; gas price 50000 and 4 admins (grant part: gas price 0)', '5 C14'),
  'C10': ('enum', 'model_checking',
          'bounded-exhaustive enumeration of write sets x permutations x read patterns x residency on the real StateLedger',
          'Every set of <=3 (thorough <=4) writes over 8 targets is executed in every order, read pattern and residency (cache, reopened, purged) on the real SimpleLedger: equal write sets must give equal roots, change sets differing in one item and equal changes on different previous roots must give different roots; tx root and receipt root (real executor functions): all 205 ordered selections of 1..4 of 5 distinct transactions pairwise distinct, 13 single-field transaction variants and 10 variants of every receipt field covered by the receipt hash at every position of every 0..2-element context, all orders of 3 receipts.',
@@ -92,8 +92,8 @@ CHECKS.update({
 CHECKS.update({
  'C16': ('govmc', 'model_checking',
          'explicit-state BFS (validated-by-construction abstraction key) over governance operations, IBTP probes and restarts on the real executor against declared lifecycle relations and a gating predicate on stored statuses',
-         'All histories up to depth 6 (thorough 7) of submit freeze/activate/logout on appchain A, service A:s1 and destination service B:s2, conclusion of the open proposal by approval or rejection, a second independent proposal (registration of a new service A:s4) pending across them, requests A:s1->B:s2, B:s2->A:s1 and A:s4->B:s2 before/during/after each transition, and node restarts; every observed status change must be an edge of the declared state machine for that trigger or a cascade of the owning appchain, forbidden is absorbing, refused operations change nothing, approved appchain freeze/logout leaves no service usable (checked after every step: a frozen or logged-out appchain has no usable service), and each request is accepted / begin-failed (status + source notified) / rejected without record according to the stored availability of source and destination.',
-         'declared FSMs and availability sets transcribed into the harness; abstraction merges histories differing only in heights/nonces/ids/counters; rules, roles, nodes are covered by C03/C15/C17', '5 C16'),
+         'All histories up to depth 6 (thorough 7) of submit freeze/activate/logout on appchain A, service A:s1 and destination service B:s2, conclusion of the open proposal by approval or rejection, a second independent proposal (registration of a new service A:s4) pending across them, requests A:s1->B:s2, B:s2->A:s1 and A:s4->B:s2 before/during/after each transition, and node restarts; every observed status change must be an edge of the declared state machine for that trigger or a cascade of the owning appchain, forbidden is absorbing, refused operations change nothing, approved appchain freeze/logout leaves no service usable (checked after every step: a frozen or logged-out appchain has no usable service), and each request is accepted / begin-failed (status + source notified) / rejected without record according to the stored availability of source and destination. Also: a logout of the appchain submitted on top of its open freeze / activate proposal (pausing it) and concluded either way; a second BFS over the lifecycle of a governance admin's role (freeze / activate / logout) and of a non-validating node (register / update / logout).',
+         'declared FSMs and availability sets transcribed into the harness; abstraction merges histories differing only in heights/nonces/ids/counters; rules are covered by C03', '5 C16'),
 })
 CHECKS.update({
  'C01': ('detmc', 'model_checking',
